@@ -16,6 +16,7 @@ import (
 	"fmt"
 	"math/rand/v2"
 	"os"
+	"path/filepath"
 	"runtime"
 	"runtime/debug"
 	"sort"
@@ -48,6 +49,7 @@ type Runner struct {
 	From    int64 // skip cases with seq < From (restart after a crash)
 	Only    int64 // >= 0: run only this case (replay)
 	Verbose bool
+	LogDir  string // directory of the shard log (scratch space for child processes)
 
 	seq      int64
 	log      *os.File
@@ -98,6 +100,7 @@ func (r *Runner) Open(logPath string) error {
 		return err
 	}
 	r.log = f
+	r.LogDir = filepath.Dir(logPath)
 	hf, err := os.OpenFile(logPath+".hashes", os.O_CREATE|os.O_WRONLY|os.O_APPEND, 0o644)
 	if err != nil {
 		return err
